@@ -10,7 +10,22 @@ def sig_c11(rec):
     return "resident>size at size=%s" % size
 
 
+def sig_c03(rec):
+    case = rec.get("case") or {}
+    hs = case.get("headers") or []
+    return "maxage:" + "|".join(hs)[:200]
+
+
 PROPS = {
+    "C03": {
+        "families": {"maxage": {"quick": 3000, "thorough": 60000, "search": 20000}},
+        "signature": sig_c03,
+        "trusted_base": [
+            "model coq/Model/MaxAge.v is hand-written from server/proxy.go getCacheMaxAge + server/cache.go; the three regexes are modelled as string scanners for the literals pinned per run; Go regexp / strconv.Atoi / http.Header semantics are part of the model and tied by the maxage family",
+        ],
+        "assumptions": ["net/http delivers canonical header keys; header values as received"],
+        "explanation": "store_sound: for all methods and header sets, what the model stores satisfies the token-level reading of C03.",
+    },
     "C11": {
         "families": {"lru": {"quick": 64, "thorough": 400, "search": 100,
                               "components": ["mismatch", "monitor"]}},
